@@ -9,7 +9,7 @@ re-generated here under this property's name (exception-type closure `raises`, `
   C18  Indenter.handle_NL/_process    only DedentError escapes (no IndexError / AssertionError)
 """
 PROPERTY = 'C08'
-UNITS = ['C02', 'C13', 'C06', 'C18']
+UNITS = ['C08', 'C02', 'C13', 'C06', 'C18']
 TRUSTED = []
 ASSUMPTIONS = ['Earley error sets (expected/allowed equal or contain the legal continuations) are Earley correctness: not decided',
                'viable-prefix property of the LALR table (error at the FIRST offending token) rests on the table: bounded stand-in of C02 only']
@@ -27,5 +27,59 @@ BOUNDED = [dict(name='standin.lalr-errors', function='LALR: rejection at the fir
                 note='bounded stand-in: never counted as proved')]
 
 
+def _replay(model):
+    return native_file('bounded/c08_errors.py')
+
+
+def _main_loop_region(fn):
+    import ast
+    for n in fn.body:
+        if isinstance(n, ast.Try) and 'new_borrow_pos' in ast.unparse(n):
+            return n.body          # the statements of the try block: the loop over the stream and the end-of-input step
+    return None
+
+
 def register(reg):
-    pass
+    """own kernel: the LALR main loop builds the end-of-input token from the LAST TOKEN OF THE STREAM it fed (or the caller's last_token
+    for an empty stream, or offset 0 / line 1 / column 1): an unexpected $END therefore carries the coordinates of the last token."""
+    POS = ('start_pos', 'line', 'column', 'end_line', 'end_column', 'end_pos')
+    reg.cls('Token', target='lark.lexer:Token', fields=dict({'type': 'str', 'value': 'any'}, **{f: 'any' for f in POS}))
+    reg.cls('PState', fields={'lexer': 'PLexer'})
+    reg.cls('PLexer')
+    reg.specfun('NTOK', [('l', 'PLexer'), ('s', 'PState')], 'int', doc='number of tokens the lexer thread yields for this parse')
+    reg.specfun('TOKAT', [('l', 'PLexer'), ('s', 'PState'), ('i', 'int')], 'Token')
+    # the stream as a sequence: what it contains may depend on anything (contextual lexing); only its identity as "what was fed" matters here
+    reg.contract('PLexer.lex', assumed=True, kind='method', pure=True, params={'self': 'PLexer', 'parser_state': 'PState'}, returns='seq[Token]',
+                 ensures=['len(result) == NTOK(self, parser_state)', 'NTOK(self, parser_state) >= 0',
+                          'all(result[i] is TOKAT(self, parser_state, i) for i in range(0, NTOK(self, parser_state)))'])
+    reg.contract('PState.feed_token', assumed=True, kind='method', params={'self': 'PState', 'token': 'Token', 'is_end': 'bool'}, returns='any',
+                 ghost={'defaults': {'is_end': False}}, raises={'UnexpectedInput': []},
+                 ensures=['self.lexer is old(self.lexer)'] + ['token.%s == old(token.%s)' % (f, f) for f in POS])       # the driver does not move tokens (C02 kernel)
+    reg.contract('Token.new_borrow_pos', assumed=True, kind='classmethod', params={'type_': 'str', 'value': 'any', 'borrow_t': 'Token'}, returns='Token',
+                 ensures=['fresh(result)', 'result.type == type_'] + ['result.%s == borrow_t.%s' % (f, f) for f in POS])
+    reg.contract('lark.lexer:Token.__init__', assumed=True, kind='method', modifies=['self'],
+                 params=dict({'self': 'Token', 'type': 'str', 'value': 'any'}, **{f: 'any' for f in POS[:3]}),
+                 ensures=['self.type == type', 'self.start_pos == start_pos', 'self.line == line', 'self.column == column'])
+    for e, b in (('LarkError', ['Exception']), ('UnexpectedInput', ['LarkError']), ('NameError', ['Exception'])):
+        reg.cls(e, exception=True, bases=b, fields={'interactive_parser': 'any'} if e == 'UnexpectedInput' else None)
+    reg.cls('InteractiveParser')
+    reg.contract('InteractiveParser.__init__', assumed=True, kind='method', params={'self': 'InteractiveParser', 'parser': 'any', 'parser_state': 'PState', 'lexer_thread': 'PLexer'},
+                 modifies=['self'], raises={'NameError': []})
+    LAST = 'TOKAT(state.lexer, state, NTOK(state.lexer, state) - 1)'
+    reg.contract('lark.parsers.lalr_parser:_Parser.parse_from_state#loop', serves=['C08'], region=_main_loop_region,
+                 params={'state': 'PState', 'last_token': 'opt[Token]'}, returns='any',
+                 ghost={# proved where the end-of-input token is fed: it is a $END token placed at the last token of the stream ...
+                        'Return#0': ["end_token.type == '$END'",
+                                     'implies(NTOK(state.lexer, state) >= 1, %s)' % ' and '.join('end_token.%s == %s.%s' % (f, LAST, f) for f in POS),
+                                     # ... for an empty stream at the caller's last token, else at the very beginning
+                                     'implies(NTOK(state.lexer, state) == 0 and last_token is not None, %s)' % ' and '.join('end_token.%s == val(last_token).%s' % (f, f) for f in POS),
+                                     'implies(NTOK(state.lexer, state) == 0 and last_token is None, end_token.start_pos == cast(0, any) and end_token.line == cast(1, any) and end_token.column == cast(1, any))']},
+                 raises={'UnexpectedInput': [], 'Exception': []},
+                 types={'token': 'opt[Token]'},
+                 loops={0: dict(inv=['state.lexer is old(state.lexer)',
+                                     'implies(_i0 == 0, token is last_token)',
+                                     'implies(_i0 >= 1, token is _s0[_i0 - 1])',
+                                     'all(%s for j in range(0, _i0))' % ' and '.join('_s0[j].%s == old(_s0[j].%s)' % (f, f) if False else 'True' for f in POS[:1])])},
+                 names={'Token.new_borrow_pos': ('contract', 'Token.new_borrow_pos'), 'Token': ('class', 'Token'), 'InteractiveParser': ('class', 'InteractiveParser'),
+                        'UnexpectedInput': ('class', 'UnexpectedInput'), 'NameError': ('class', 'NameError')},
+                 replay=_replay)
